@@ -1489,7 +1489,25 @@ def _run_session(cs, log, ctx, order_seed=None, collect=None):
             if k - c["reissue_of"] >= 5:
                 ctx.hit("probe.reissue_separated_by_5_or_more_calls")
             if ref[3] != outcome[3]:
-                ctx.hit("probe.reissue_skipped_grid_dtype_changed")
+                # a grid argument changed dtype in between.  For the
+                # functions that make that change themselves (accumulate,
+                # slope: same cells, wider type) the values returned must
+                # still agree; for the others the result may depend on the
+                # dtype and nothing is concluded
+                if e.name.startswith(("grid.accumulate", "grid.slope")) and \
+                        ref[0] == "ok" and outcome[0] == "ok":
+                    ctx.hit("probe.reissue_compared_by_value_across_dtype")
+                    if not _close(ref[2], outcome[2]):
+                        raise Violation(
+                            "reissue_differs",
+                            f"{e.name}({c['opts']}) on pool objects "
+                            f"{c['ids']}: call #{c['reissue_of']} (grid "
+                            f"dtypes {ref[3]}) and re-issue #{k} (grid dtypes "
+                            f"{outcome[3]}, same cell values) return "
+                            f"different values: {ref[2][:6]} vs "
+                            f"{outcome[2][:6]}", e.name)
+                else:
+                    ctx.hit("probe.reissue_skipped_grid_dtype_changed")
                 continue
             if ref[0] != outcome[0] or ref[1] != outcome[1]:
                 raise Violation(
